@@ -8,6 +8,7 @@ import (
 	"os"
 	"path/filepath"
 	"strconv"
+	"strings"
 	"sync"
 	"time"
 
@@ -29,6 +30,8 @@ const (
 
 var _syncEvictionLatencyBuckets = tally.MustMakeExponentialDurationBuckets(100*time.Millisecond, 1.4, 15)
 var errNoSpace = errors.New("cannot free enough space for new entry, the unevictable/incomplete blobs are using up all the space")
+
+var errInvalidKey = errors.New("invalid blob key")
 
 // store implements the APIs of [Store]. [store]'s APIs expose the [storelib.BlobScope] arg,
 // while [Store]'s APIs omit that arg (cleaner interface) and instead expose other APIs to scope the whole store.
@@ -155,6 +158,10 @@ func (s *store) Create(key string, sizeBytes uint64) (*File, error) {
 	s.mu.Lock()
 	defer s.mu.Unlock()
 
+	if !s.validKey(key) {
+		return nil, errInvalidKey
+	}
+
 	if _, ok := s.blobs[key]; ok {
 		return nil, os.ErrExist
 	}
@@ -194,6 +201,22 @@ func (s *store) Create(key string, sizeBytes uint64) (*File, error) {
 
 	s.emitUsageMetrics()
 	return newFile(f), nil
+}
+
+// validKey tells whether key names a directory of its own below the shard directories: the key and
+// its shard components are joined into paths unchanged, so a key that is empty, ".", ".." or contains a
+// separator, or whose shard component is "..", would make the blob's directory some other directory of
+// the store (or one outside it).
+func (s *store) validKey(key string) bool {
+	if key == "" || key == "." || key == ".." || strings.ContainsRune(key, '/') || strings.ContainsRune(key, os.PathSeparator) {
+		return false
+	}
+	for i := 0; i < s.config.ShardLength && i < len(key)/2; i++ {
+		if key[i*2:i*2+2] == ".." {
+			return false
+		}
+	}
+	return true
 }
 
 func (s *store) persistBlobSize(key string, sizeBytes uint64) error {
